@@ -12,15 +12,30 @@ Observation after every public call (same JSON shape as the spec's `exp`):
   wired : [[sink, c]] an event raised NOW on component c's object reaches the
           sink's _handle_<c>_Ev exactly once ([sink, c, "xN"] if N times)
   attrs : [[sink, c]] sink._<c>_ is the registered object
+
+How the names of a declaration are handed over (spec: args.f):
+  "fresh" a collection made for this call - list / tuple / set / str and, chosen
+          by `style`, a list naming a component twice, a sequence that only has
+          __len__/__getitem__, an iterable that only has __iter__, frozenset,
+          dict, dict keys view, a str subclass, the argument left out (no names)
+  "once"  a one-shot iterator: generator, map, iter(list), filter, dict
+          iterator, itertools.chain
+  "k1"..  a mutable collection the CALLER owns (list / set / dict / UserList /
+          deque by `style`), changed by the spec's Mutate action after (and
+          before) declarations through it and re-used for further declarations
 """
+import collections
 import functools
 import gc
 import hashlib
 import io
+import itertools
 import json
 import select
 import sys
+import zlib
 
+from engine.core import Machinery
 from harness import poxenv
 
 REPO = poxenv.REPO
@@ -102,6 +117,90 @@ class CallableWaiter(object):
     return self.fn()
 
 
+class GetitemSeq(object):
+  """A sequence in the old protocol: __len__ and __getitem__ only (no __iter__)."""
+  def __init__(self, names):
+    self._names = list(names)
+
+  def __len__(self):
+    return len(self._names)
+
+  def __getitem__(self, i):
+    return self._names[i]
+
+
+class IterOnly(object):
+  """A re-iterable collection that only has __iter__ (no __len__, no indexing)."""
+  def __init__(self, names):
+    self._names = list(names)
+
+  def __iter__(self):
+    return iter(list(self._names))
+
+
+class StrName(str):
+  """A component name that is an instance of a str subclass."""
+
+
+ONCE_KINDS = ("generator", "map", "iter", "filter", "dictiter", "chain")
+OWN_KINDS = ("list", "set", "dict", "userlist", "deque")
+
+
+def one_shot(kind, names):
+  """a one-shot iterator over names: what it yields is gone once consumed"""
+  names = list(names)
+  if kind == "generator":
+    return (n for n in names)
+  if kind == "map":
+    return map(str, names)
+  if kind == "iter":
+    return iter(names)
+  if kind == "filter":
+    return filter(None, names)
+  if kind == "dictiter":
+    return iter(dict.fromkeys(names))
+  if kind == "chain":
+    return itertools.chain(names[:1], names[1:])
+  raise ValueError(kind)
+
+
+class OwnedCollection(object):
+  """A mutable collection the caller keeps: `obj` is what is handed to core,
+  `view` is the harness's own record of what the caller put into it (the spec's
+  coll[k]); the two are never reconciled - if core changes the caller's object
+  the consequences show in what later declarations through it do."""
+  def __init__(self, kind):
+    self.kind = kind
+    self.view = set()
+    self.obj = {"list": list, "set": set, "dict": dict, "userlist": collections.UserList,
+                "deque": collections.deque}[kind]()
+
+  def add(self, name, front=False):
+    self.view.add(name)
+    o = self.obj
+    if self.kind == "set":
+      o.add(name)
+    elif self.kind == "dict":
+      o[name] = True
+    elif self.kind == "deque":
+      o.appendleft(name) if front else o.append(name)
+    else:
+      o.insert(0, name) if front else o.append(name)
+
+  def remove(self, name):
+    self.view.discard(name)
+    o = self.obj
+    if self.kind == "set":
+      o.discard(name)
+    elif self.kind == "dict":
+      o.pop(name, None)
+    elif len(o) == 1 and name in o:
+      o.clear()
+    else:
+      while name in o:
+        o.remove(name)
+
+
 _clock = poxenv.clock
 _current = [None]
 
@@ -149,7 +248,7 @@ def fresh_core():
 
 
 class Adapter(object):
-  def __init__(self, catalog, style=0, noisy=False):
+  def __init__(self, catalog, style=0, noisy=False, own=None, vary=False):
     _freeze_once()
     self.cat = catalog
     self.style = style
@@ -178,6 +277,19 @@ class Adapter(object):
     self.requit = False
     self.last_container = None
     self.last_callback = None
+    # collections the caller owns (spec: Colls / coll)
+    # (kind of the i-th one: `own[i]` if given, else chosen by the style; with `vary` it is chosen when the
+    # collection is first used, by the operations made so far - see _coll)
+    self.vary = vary
+    self.hh = 0               # hash of the operations made so far (only used with `vary`)
+    self.coll_names = sorted(catalog.get("colls", ()))
+    self.colls = {}
+    if not vary:
+      for k in self.coll_names:
+        self._coll(k, own)
+    self.form_of = {}         # waiter -> how its names were handed over (for signatures)
+    self.via = {}             # waiter -> collection it was declared through
+    self.fired_ws = set()
     self.calls = 0
     self.diverged = False
     for nm, cls in LIFE[1:]:
@@ -192,6 +304,15 @@ class Adapter(object):
 
   def _make_core(self):
     return fresh_core()
+
+  def _coll(self, k, own=None):
+    """the caller's collection k (made on first use)"""
+    if k not in self.colls:
+      i = self.coll_names.index(k)
+      kind = own[i] if own and i < len(own) else \
+          OWN_KINDS[(self.style + self.style // 5 + i + self.hh) % len(OWN_KINDS)]
+      self.colls[k] = OwnedCollection(kind)
+    return self.colls[k]
 
   def _flavour(self, i):
     """which unusual behaviour the i-th component / waiter object has"""
@@ -269,7 +390,7 @@ class Adapter(object):
         self._register(op["c"])
       elif k == "cwr":
         if op["w"] not in self.declared:
-          self._call_when_ready(op["w"], op["d"])
+          self._call_when_ready(op["w"], op["d"], "fresh")
       elif k == "acq":
         self.held[owner] = self._take_deferral(event)
         self.outstanding.add(owner)
@@ -306,6 +427,7 @@ class Adapter(object):
   def _fired(self, w):
     if not self._budget():
       return
+    self.fired_ws.add(w)
     self.log.append({"k": "fire", "n": w, "s": self.snapshot()})
     self._run_prog(self.script[w], w)
 
@@ -316,41 +438,82 @@ class Adapter(object):
     else:
       self.core.register(self.objs[c])        # name taken from _core_name
 
-  def _container(self, names, idx, allow_str=True):
+  def _container(self, names, idx, allow_str=True, form="fresh", who=None, allow_omit=False):
+    """The object that hands the component names over to core (spec: args.f).
+    Returns (object,) or () when the argument is left out."""
+    if form in self.coll_names:
+      oc = self._coll(form)
+      if oc.view != set(names):
+        raise Machinery("collection %s holds %r, the spec says %r" % (form, sorted(oc.view), sorted(names)))
+      self.last_container = "own:" + oc.kind
+      self.via[who] = form
+      return (oc.obj,)
+    if form == "once":
+      kind = ONCE_KINDS[(self.style + self.style // 6 + idx + self.hh) % len(ONCE_KINDS)]
+      self.last_container = "once:" + kind
+      return (one_shot(kind, names),)
+    if form != "fresh":
+      raise Machinery("unknown form %r" % (form,))
     v = (self.style + idx) % 4
+    u = (self.style // 4 + idx) % 3
     if v == 3 and len(names) == 1 and allow_str:
+      if u == 1:
+        self.last_container = "strsub"
+        return (StrName(names[0]),)
+      if u == 2:
+        self.last_container = "dict"
+        return ({names[0]: None},)
       self.last_container = "str"
-      return names[0]
+      return (names[0],)
     if v == 1:
+      if u == 1:
+        self.last_container = "iteronly"
+        return (IterOnly(names),)
       self.last_container = "tuple"
-      return tuple(names)
+      return (tuple(names),)
     if v == 2:
+      if u == 1:
+        self.last_container = "frozenset"
+        return (frozenset(names),)
+      if u == 2:
+        self.last_container = "keysview"
+        return (dict.fromkeys(names).keys(),)
       self.last_container = "set"
-      return set(names)
+      return (set(names),)
+    if u == 1 and names:
+      self.last_container = "duplist"
+      return (list(names) + [names[0]],)
+    if u == 2:
+      self.last_container = "getitemseq"
+      return (GetitemSeq(names),)
+    if v == 3 and not names and allow_omit:
+      self.last_container = "omitted"
+      return ()
     self.last_container = "list"
-    return list(names)
+    return (list(names),)
 
-  def _call_when_ready(self, w, deps):
+  def _call_when_ready(self, w, deps, form="fresh"):
     self.declared.add(w)
     names = [self.name[c] for c in sorted(deps)]
     if (self.style // 4) % 2:
       names.reverse()
-    comps = self._container(names, sorted(self.kind).index(w))
     wi = sorted(self.kind).index(w)
+    comps = self._container(names, wi, form=form, who=w, allow_omit=True)
+    self.form_of[w] = self.last_container
     v = (self.style + wi) % 4
     if v == 3:
       fl = self._flavour(wi + 2)
       self.last_callback = "object-" + fl
-      self.core.call_when_ready(flavoured(CallableWaiter, fl)(lambda: self._fired(w)), comps)
+      self.core.call_when_ready(flavoured(CallableWaiter, fl)(lambda: self._fired(w)), *comps)
     elif v == 0:
       self.last_callback = "method"
-      self.core.call_when_ready(self._fired, comps, args=(w,))
+      self.core.call_when_ready(self._fired, *comps, args=(w,))
     elif v == 1:
       self.last_callback = "partial"
-      self.core.call_when_ready(functools.partial(self._fired, w), comps)
+      self.core.call_when_ready(functools.partial(self._fired, w), *comps)
     else:
       self.last_callback = "lambda"
-      self.core.call_when_ready(lambda: self._fired(w), comps, name="waiter-" + w)
+      self.core.call_when_ready(lambda: self._fired(w), *comps, name="waiter-" + w)
 
   def _make_sink(self, s):
     ad = self
@@ -368,17 +531,20 @@ class Adapter(object):
     ns.update(_flavour_ns(self._flavour(sorted(self.kind).index(s) + 1)))
     return type("Sink_" + s, (object,), ns)()
 
-  def _listen(self, s, expl):
+  def _listen(self, s, expl, form="fresh"):
     self.declared.add(s)
     sink = self._make_sink(s)
     short = (self.style // 2) % 2 == 1
     self.sinks[s] = (sink, short)
     names = [self.name[c] for c in sorted(expl)]
+    if (self.style // 4) % 2:
+      names.reverse()
     kw = {}
-    if names or self.style % 2:
-      kw["components"] = self._container(names, sorted(self.kind).index(s))
+    if names or self.style % 2 or form != "fresh":
+      kw["components"] = self._container(names, sorted(self.kind).index(s), form=form, who=s)[0]
     else:
       self.last_container = "None"
+    self.form_of[s] = self.last_container
     if short:
       kw["short_attrs"] = True
       kw["attrs"] = False
@@ -394,12 +560,18 @@ class Adapter(object):
   # ---- the spec's actions
   def step(self, a, args):
     self.calls = 0
+    if self.vary:
+      # which concrete kind of iterator / collection an operation uses depends (reproducibly) on the
+      # operations made before it, so that one replay run spreads all kinds over the state graph
+      self.hh = zlib.crc32(_canon([self.hh, a, args]).encode()) % 30030
     if a == "Register":
       self._register(args["c"])
     elif a == "CallWhenReady":
-      self._call_when_ready(args["w"], args["deps"])
+      self._call_when_ready(args["w"], args["deps"], args.get("f", "fresh"))
     elif a == "ListenTo":
-      self._listen(args["w"], args["deps"])
+      self._listen(args["w"], args["deps"], args.get("f", "fresh"))
+    elif a == "Mutate":
+      self._mutate(args["f"], args["o"], args["c"])
     elif a == "GoUp":
       self.upprog = args["up"]
       for i, prog in enumerate(args["hs"]):
@@ -434,6 +606,23 @@ class Adapter(object):
     else:
       raise ValueError(a)
     return self.observe()
+
+  def coll_syms(self, k):
+    """what the caller has put into its collection k (symbols of the catalog)"""
+    return sorted(c for c in self.comps if self.name[c] in self._coll(k).view)
+
+  def _mutate(self, k, o, c):
+    """The caller changes a collection of its own; no call into core."""
+    oc = self._coll(k)
+    if o == "add":
+      oc.add(self.name[c], front=bool((self.style // 3) % 2))
+    elif o == "del":
+      oc.remove(self.name[c])
+    else:
+      raise Machinery("unknown mutation %r" % (o,))
+    for w, kk in self.via.items():
+      if kk == k and w not in self.fired_ws and not self.form_of[w].endswith("+" + o):
+        self.form_of[w] += "+" + o       # e.g. own:list+add: changed after w was declared through it
 
   def _go_up(self):
     self.core.goUp()
@@ -479,6 +668,9 @@ class Adapter(object):
       sig["container"] = self.last_container
     if a == "CallWhenReady":
       sig["callback"] = self.last_callback
+    if a == "Mutate":
+      sig["container"] = "own:" + self.colls[args["f"]].kind if args.get("f") in self.colls else "?"
+      sig["op"] = args.get("o")
     if a == "GoUp":
       sig["handlers"] = "+".join(".".join(op["k"] for op in p) or "none" for p in args.get("hs", [])) or "-"
       sig["up"] = ".".join(op["k"] for op in args.get("up", [])) or "none"
@@ -498,6 +690,10 @@ class Adapter(object):
     efire = sorted(e["n"] for e in elogs[0] if e["k"] == "fire")
     sig["fired_extra"] = sorted(set(x for x in ofire if ofire.count(x) > efire.count(x)))
     sig["fired_missing"] = sorted(set(x for x in efire if efire.count(x) > ofire.count(x)))
+    # how the waiters concerned had their component names handed over
+    decl = sorted(set(self.form_of.get(w, "?") for w in sig["fired_extra"] + sig["fired_missing"]))
+    if decl:
+      sig["decl"] = decl
     sig["observed_life"] = [e["n"] for e in olog if e["k"] == "life"]
     sig["expected_life"] = [e["n"] for e in elogs[0] if e["k"] == "life"]
     return sig
@@ -573,4 +769,6 @@ def canon_catalog(cat):
   cat["handles"] = {w: sorted(v) for w, v in cat["handles"].items()}
   cat["script"] = {w: [dict(op, d=sorted(op["d"])) for op in v] for w, v in cat["script"].items()}
   cat["cr"] = dict(cat["cr"], p=[dict(op, d=sorted(op["d"])) for op in cat["cr"]["p"]])
+  cat["forms"] = sorted(cat.get("forms", ["fresh"]))
+  cat["colls"] = sorted(cat.get("colls", []))
   return cat
